@@ -184,11 +184,13 @@ func symRawBundle(focus int) Bundle {
 		case 3:
 			ts = tsAlive
 		}
-		switch verif.Choose("lifecase", 2) {
+		switch verif.Choose("lifecase", 3) {
 		case 0:
 			life = 3600000
 		case 1:
 			life = 1<<32 + 30*day
+		case 2:
+			life = 1<<40 - 1 // about 35 years: longer than the time since the DTN epoch (2000-01-01)
 		}
 		pb.CreationTimestamp = NewCreationTimestamp(DtnTime(ts), symU64w("seq", false))
 		pb.Lifetime = life
